@@ -1371,3 +1371,15 @@ package engine
 //@   property C08
 //@   nosafety
 //@   at-call sort.SliceStable requires[keysort-is-a-stable-sort] true
+
+//@ ---------------------------------------------------------------- database updates (C09)
+
+//@ func id
+//@   trusted
+//@   pure
+//@   deterministic
+
+//@ func Retract$1$1
+//@   property C09 C05
+//@   safety own
+//@   requires u != nil
